@@ -20,7 +20,7 @@ from harness import common_render as CR
 
 ID = "C12"
 TECHNIQUE = "solver-enumerated multi-document Sphinx projects built by the real Sphinx application with instrumented MyST modules (symx); resolved doctrees compared with URIs computed independently from the project description"
-LEVEL_TEXT = ("For every project of the bounded project grammar (2-3 Markdown documents at directory depths 0-2, titles, one sub-heading, one explicit label and one non-document file) and every link "
+LEVEL_TEXT = ("For every project of the bounded project grammar (6 Markdown documents at directory depths 0-2 incl. same-named documents in different directories, titles, one sub-heading whose slug differs from its id, one explicit label, one non-document file, nitpick_ignore_regex entries that are only prefixes of the missing names) and every link "
               "from one document to another in every spelling (relative path with/without './' and '../', leading '/', with/without extension, with '#heading-anchor', <project:...>, <path:...>, "
               "'#label' across documents, explicit vs empty text, missing document / anchor / label) the resolved doctree is compared with the expectation computed from the project description: "
               "URI relative to the referencing page, link text = explicit text or target title, exactly one myst.xref_missing warning naming an unresolvable destination, text still rendered.")
